@@ -71,6 +71,50 @@ public class JHarness {
     } catch (RuntimeException e) { /* immutable or null parts: nothing to overwrite */ }
   }
 
+  static String process(String line, Map<String, List<Method>> methods, Map<String, Crystal_Struct> crystals) {
+      String[] tok = line.split("\t", -1);
+      List<Method> cand = methods.get(tok[0]);
+      if (cand == null) return "X\tno-such-method";
+      // tokens that are not passed on: array placeholders, out parameters
+      List<String> a = new ArrayList<>();
+      for (int i = 1; i < tok.length; i++) if (!tok[i].equals("-") && !tok[i].equals("N")) a.add(tok[i]);
+      Method m = null;
+      for (Method c : cand) if (c.getParameterCount() == a.size()) m = c;
+      if (m == null) return "X\tno-such-arity\t" + a.size();
+      Class<?>[] pt = m.getParameterTypes();
+      Object[] args = new Object[pt.length];
+      boolean skip = false;
+      try {
+        for (int i = 0; i < pt.length; i++) {
+          String t = a.get(i);
+          if (pt[i] == int.class) args[i] = Integer.parseInt(t);
+          else if (pt[i] == double.class) args[i] = Double.parseDouble(t);
+          else if (pt[i] == String.class) { if (t.equals("NULL")) { skip = true; } else args[i] = unhex(t.substring(2)); }
+          else if (pt[i] == Crystal_Struct.class) {
+            if (t.equals("cNULL")) skip = true;
+            else {
+              Crystal_Struct cs = crystals.get(t);
+              if (cs == null) { cs = t.startsWith("c:") ? Xraylib.Crystal_GetCrystal(unhex(t.substring(2))) : userCrystal(t); crystals.put(t, cs); }
+              args[i] = cs;
+            }
+          }
+          else { skip = true; }
+        }
+      } catch (Exception e) { return "X\tbad-arguments\t" + e; }
+      if (skip) return "X\tskip";
+      try {
+        Object r = m.invoke(null, args);
+        String s = "R\t" + enc(m.getReturnType() == void.class ? null : r) + "\tE\t-";
+        scribble(r);
+        return s;
+      } catch (InvocationTargetException e) {
+        Throwable c = e.getCause();
+        return "R\t-\tE\t" + c.getClass().getSimpleName() + ":" + hex(String.valueOf(c.getMessage()));
+      } catch (IllegalAccessException e) {
+        return "X\tillegal-access";
+      }
+  }
+
   public static void main(String[] argv) throws Exception {
     if (argv.length >= 1 && argv[0].equals("--methods")) {
       // list "name arity" of every public static method, for the coverage comparison with the C headers
@@ -92,47 +136,26 @@ public class JHarness {
     for (Method m : Xraylib.class.getMethods()) if (Modifier.isStatic(m.getModifiers())) methods.computeIfAbsent(m.getName(), k -> new ArrayList<>()).add(m);
     BufferedReader in = new BufferedReader(new InputStreamReader(new FileInputStream(argv[0]), StandardCharsets.ISO_8859_1));
     PrintWriter out = new PrintWriter(new BufferedWriter(new OutputStreamWriter(new FileOutputStream(argv[1]), StandardCharsets.ISO_8859_1)));
+    List<String> lines = new ArrayList<>();
     String line;
-    while ((line = in.readLine()) != null) {
-      String[] tok = line.split("\t", -1);
-      List<Method> cand = methods.get(tok[0]);
-      if (cand == null) { out.println("X\tno-such-method"); continue; }
-      // tokens that are not passed on: array placeholders, out parameters
-      List<String> a = new ArrayList<>();
-      for (int i = 1; i < tok.length; i++) if (!tok[i].equals("-") && !tok[i].equals("N")) a.add(tok[i]);
-      Method m = null;
-      for (Method c : cand) if (c.getParameterCount() == a.size()) m = c;
-      if (m == null) { out.println("X\tno-such-arity\t" + a.size()); continue; }
-      Class<?>[] pt = m.getParameterTypes();
-      Object[] args = new Object[pt.length];
-      boolean skip = false;
-      try {
-        for (int i = 0; i < pt.length; i++) {
-          String t = a.get(i);
-          if (pt[i] == int.class) args[i] = Integer.parseInt(t);
-          else if (pt[i] == double.class) args[i] = Double.parseDouble(t);
-          else if (pt[i] == String.class) { if (t.equals("NULL")) { skip = true; } else args[i] = unhex(t.substring(2)); }
-          else if (pt[i] == Crystal_Struct.class) {
-            if (t.equals("cNULL")) skip = true;
-            else {
-              Crystal_Struct cs = crystals.get(t);
-              if (cs == null) { cs = t.startsWith("c:") ? Xraylib.Crystal_GetCrystal(unhex(t.substring(2))) : userCrystal(t); crystals.put(t, cs); }
-              args[i] = cs;
-            }
-          }
-          else { skip = true; }
-        }
-      } catch (Exception e) { out.println("X\tbad-arguments\t" + e); continue; }
-      if (skip) { out.println("X\tskip"); continue; }
-      try {
-        Object r = m.invoke(null, args);
-        out.println("R\t" + enc(m.getReturnType() == void.class ? null : r) + "\tE\t-");
-        scribble(r);
-      } catch (InvocationTargetException e) {
-        Throwable c = e.getCause();
-        out.println("R\t-\tE\t" + c.getClass().getSimpleName() + ":" + hex(String.valueOf(c.getMessage())));
+    while ((line = in.readLine()) != null) lines.add(line);
+    final Map<String, List<Method>> M = methods;
+    int T = argv.length >= 3 ? Integer.parseInt(argv[2]) : 1;
+    final String[] res = new String[lines.size()];
+    if (T <= 1) {
+      for (int i = 0; i < lines.size(); i++) res[i] = process(lines.get(i), M, crystals);
+    } else {
+      // the same stream dealt round-robin to T threads (each with its own crystal objects): the answers must be those of the serial run
+      Thread[] th = new Thread[T];
+      final List<String> L = lines;
+      for (int k = 0; k < T; k++) {
+        final int kk = k, TT = T;
+        th[k] = new Thread(() -> { Map<String, Crystal_Struct> own = new HashMap<>(); for (int i = kk; i < L.size(); i += TT) res[i] = process(L.get(i), M, own); });
+        th[k].start();
       }
+      for (Thread x : th) x.join();
     }
+    for (String r : res) out.println(r);
     out.close();
   }
 }
